@@ -45,7 +45,7 @@ PROFILES = {
     "C05": dict(notw=[(0, 1), (1, 8)], ops=60, edge_types=False, leave_w=1, ctl_w=4, pub_w=16,
                 noise_w=1, clock_w=3, early=4),
     "C19": dict(notw=[(0, 1), (1, 8)], ops=50, edge_types=False, leave_w=2, ctl_w=14, pub_w=5,
-                noise_w=4, clock_w=1),
+                noise_w=4, clock_w=1, early=5),
     "C14": dict(notw=[(1, 3), (1, 2), (1, 8)], ops=40, edge_types=False, leave_w=4, ctl_w=5,
                 pub_w=12, noise_w=1, clock_w=1),
 }
@@ -191,7 +191,10 @@ class PubSubRun:
                                                          (2, "logger"), (1, 200), (1, 201),
                                                          (1, -1), (1, 32767)]))
         dh = ch.weighted("pub.host", [(12, 0), (1, 5), (1, 6), (1, -1)])
-        n = ch.weighted("pub.size", [(4, 0), (6, "small"), (2, "mid"), (1, 65535)])
+        n = ch.weighted("pub.size", [(16, 0), (24, "small"), (8, "mid"), (4, 65535), (1, "huge")])
+        if n == "huge":
+            n = ch.choose("pub.huge", [65536, 131072, 1048576, 1048575, 70000])
+            self.res.probes["payload_over_64k"] += 1
         if n == "small":
             n = 1 + ch.pick("pub.small", 64)
         elif n == "mid":
@@ -634,11 +637,15 @@ class PubSubRun:
                 else:
                     res.probes["refused_or_ignored_connect_checked"] += 1
                 continue
-            if m is None or not m.connected and not (m.connect_seq is not None):
+            if m is None:
                 continue
-            # only senders that completed a handshake are asserted on
-            if m.connect_seq is None or m.connect_seq > c.fr.seq:
-                continue
+            # a sender that has not (yet) completed a handshake is acknowledged like any other; its
+            # module id is still 0
+            pre_handshake = m.connect_seq is None or m.connect_seq > c.fr.seq
+            if pre_handshake:
+                res.probes["pre_handshake_control_checked"] += 1
+                if c.ack_expected:
+                    c.mod_id = 0
             n, bad = count(c.conn, lo, hi, dest=c.mod_id if (c.ack_expected and c.mod_id not in (None, -1)) else None)
             if c.ack_expected:
                 if m.is_logger:
